@@ -176,6 +176,22 @@ fn enc_cases(t: Tier) -> Vec<EncCase> {
 fn check_encoder(case: &EncCase, p: &mut Probe) -> Check {
     let mut order: Vec<&(&str, usize, usize, usize, usize)> = STANDARD.iter().collect();
     order.sort_by_key(|s| s.1 - s.2);
+    // the thread that builds the encoders has built encoders before: three small matrices whose parity
+    // part is nearly, but not, a staircase (ones at legal staircase positions followed by one that is not;
+    // an identity; a staircase with a missing step), whatever the constructor makes of them
+    for tail in [[[1u8, 0, 1], [1, 1, 0], [0, 1, 1]], [[1, 0, 0], [0, 1, 0], [0, 0, 1]], [[1, 0, 0], [0, 1, 0], [0, 1, 1]]] {
+        let mut small = ldpc_toolbox::sparse::SparseMatrix::new(3, 6);
+        for i in 0..3 {
+            small.insert(i, i);
+            small.insert(i, (i + 1) % 3);
+            for (j, &b) in tail[i].iter().enumerate() {
+                if b == 1 {
+                    small.insert(i, 3 + j);
+                }
+            }
+        }
+        let _ = guarded(|| Encoder::from_h(&small));
+    }
     for s in order {
         let name = s.0;
         let (code, (n, k, _, _)) = lookup(name)?;
@@ -234,7 +250,7 @@ fn concurrent_cases(t: Tier) -> Vec<EncCase> {
 /// the ten short codes and two normal ones, each built and handed to the encoder inside a rayon
 /// pool of a single thread (a one-CPU container, RAYON_NUM_THREADS=1)
 fn single_thread_cases(_t: Tier) -> Vec<EncCase> {
-    STANDARD.iter().enumerate().filter(|(_, s)| s.1 == 16200 || s.0 == "R1_2" || s.0 == "R9_10").map(|(i, _)| EncCase { messages: i, seed: 0 }).collect()
+    STANDARD.iter().enumerate().filter(|(_, s)| s.1 == 16200 || s.0 == "R1_2" || s.0 == "R9_10").flat_map(|(i, _)| [1u64, 3].map(|t| EncCase { messages: i, seed: t })).collect()
 }
 
 fn check_single_thread(case: &EncCase, p: &mut Probe) -> Check {
@@ -242,14 +258,16 @@ fn check_single_thread(case: &EncCase, p: &mut Probe) -> Check {
     // (the case's `messages` field carries the index of the code)
     let s = &STANDARD[case.messages % STANDARD.len()];
     let (code, (n, k, _, _)) = lookup(s.0)?;
-    let pool = rayon::ThreadPoolBuilder::new().num_threads(1).build().map_err(|e| Fail::new(INCONCLUSIVE, format!("cannot build a rayon pool: {e}")))?;
-    let h = guarded(|| pool.install(|| code.h())).map_err(|e| Fail::new("panic", format!("{}: h() panicked inside a single-thread rayon pool: {e}", s.0)))?;
+    // pools of one thread and of three (a worker count that divides no power of two)
+    let threads = if case.seed == 3 { 3 } else { 1 };
+    let pool = rayon::ThreadPoolBuilder::new().num_threads(threads).build().map_err(|e| Fail::new(INCONCLUSIVE, format!("cannot build a rayon pool: {e}")))?;
+    let h = guarded(|| pool.install(|| code.h())).map_err(|e| Fail::new("panic", format!("{}: h() panicked inside a rayon pool of {threads} thread(s): {e}", s.0)))?;
     ensure!(h.num_cols() == n && h.num_rows() == n - k, "dimensions", "{}: matrix is {} x {}", s.0, h.num_rows(), h.num_cols());
     let got = columns_digest(n - k, &sorted_columns(&h));
     let want = digests.get(s.0).ok_or_else(|| Fail::new("golden-missing", format!("{}: no pinned digest", s.0)))?;
-    ensure!(&got == want, "single-thread-build", "{}: the matrix built inside a single-thread rayon pool differs from the pinned reference", s.0);
-    let enc = guarded(|| pool.install(|| ldpc_toolbox::encoder::Encoder::from_h(&h))).map_err(|e| Fail::new("panic", format!("{}: Encoder::from_h panicked inside a single-thread rayon pool: {e}", s.0)))?;
-    ensure!(enc.is_ok(), "encoder-rejects", "{}: Encoder::from_h failed inside a single-thread rayon pool: {:?}", s.0, enc.err());
+    ensure!(&got == want, "single-thread-build", "{}: the matrix built inside a rayon pool of {threads} thread(s) differs from the pinned reference", s.0);
+    let enc = guarded(|| pool.install(|| ldpc_toolbox::encoder::Encoder::from_h(&h))).map_err(|e| Fail::new("panic", format!("{}: Encoder::from_h panicked inside a rayon pool of {threads} thread(s): {e}", s.0)))?;
+    ensure!(enc.is_ok(), "encoder-rejects", "{}: Encoder::from_h failed inside a rayon pool of {threads} thread(s): {:?}", s.0, enc.err());
     p.inner += 1;
     p.nontrivial();
     Ok(())
@@ -298,7 +316,7 @@ pub fn property() -> Property {
             }),
             Box::new(EnumSub {
                 name: "encoder",
-                rule: "all 21 codes in ascending order of n-k: Encoder::from_h succeeds and its Debug rendering shows the staircase variant (linear time, no dense elimination; if a renamed variant hides it, building the encoder must cost less than 15 times the construction of the matrix); 8 (thorough 200) messages per code (all-ones + pseudo-random from VERIF_SEED): systematic prefix and own H c = 0; inner = encoded messages",
+                rule: "on a thread that has just built encoders for three small matrices whose parity part is nearly a staircase: all 21 codes in ascending order of n-k: Encoder::from_h succeeds and its Debug rendering shows the staircase variant (linear time, no dense elimination; if a renamed variant hides it, building the encoder must cost less than 15 times the construction of the matrix); 8 (thorough 200) messages per code (all-ones + pseudo-random from VERIF_SEED): systematic prefix and own H c = 0; inner = encoded messages",
                 cases: enc_cases,
                 check: check_encoder,
                 exhaustive: true,
@@ -312,7 +330,7 @@ pub fn property() -> Property {
             }),
             Box::new(EnumSub {
                 name: "single-thread-pool",
-                rule: "the ten short codes and normal 1/2 and 9/10, each built and handed to Encoder::from_h inside a rayon pool of one thread (a one-CPU container): the calls return (a call that has not returned after 60 s is reported), the matrix has the pinned digest, the encoder accepts it",
+                rule: "the ten short codes and normal 1/2 and 9/10, each built and handed to Encoder::from_h inside a rayon pool of one thread (a one-CPU container) and of three threads: the calls return (a call that has not returned after 60 s is reported), the matrix has the pinned digest, the encoder accepts it",
                 cases: single_thread_cases,
                 check: check_single_thread,
                 exhaustive: false,
